@@ -3,10 +3,10 @@ package hsim
 // C18 Load balancers always pick a valid server and honour their policy.
 
 import (
-	"net/url"
 	"context"
 	"errors"
 	"fmt"
+	"net/url"
 	"sort"
 	"strings"
 	"time"
